@@ -354,13 +354,18 @@ class C10(Prop):
         def finish(steps, threads=False):
             steps = [st for st in steps if st is not None]
             rng.shuffle(steps)
-            if len(steps) > 12:
-                steps = steps[:12]
+            if len(steps) > 14:
+                steps = steps[:14]
             k = min(len(steps), rng.choice([1, 2, 3]))
             steps = steps + [dict(st, via=V()) if rng.random() < 0.5 else dict(st) for st in steps[:k]]
             c = {"kind": "seq", "steps": steps}
             if threads:
                 c["mode"] = "threads"
+            elif rng.random() < 0.6:
+                # one compiled program per (expression, runner), many activations: prefer bound variables
+                c["share"] = True
+                rv = rng.choice(["Ivar", "Cvar"])
+                c["steps"] = [dict(st, via=rng.choice([rv, rv, rv, rv, "Ivar", "Cvar", st["via"]])) for st in steps]
             out.append(c)
 
         reps = 1 if quick else 12
@@ -403,38 +408,43 @@ class C10(Prop):
             if n <= U_MAX:
                 steps += [rt("uint_string", n), conv("string", "u", n), conv("int", "u", n), rt("uint_int", n)]
             finish(steps, threads=(i % 5 == 4))
-        # (c) equal values of different types (equal hash): n, nu, n.0, true/false
+        # (c) equal values of different types (equal hash): n, nu, n.0, true/false — two conversions applied to all of them
         for i in range(8 * reps):
             n = rng.choice([0, 1, 0, 1, 2, rng.randint(0, 255), rng.randint(0, 2**53), 2**rng.randint(1, 62), rng.randint(0, I_MAX)])
             x = float(n)
-            steps = [conv("string", "i", n), conv("string", "u", n), conv("string", "d", bits(x)), conv("string", "d", bits(-x)),
-                     conv("int", "u", n), conv("uint", "i", n), conv("int", "i", n), conv("uint", "u", n), conv("uint", "i", -n), conv("int", "i", -n),
-                     conv("double", "i", n), conv("double", "u", n), conv("double", "i", -n), conv("int", "d", bits(x)), conv("uint", "d", bits(x)),
-                     conv("int", "d", bits(-x)), conv("uint", "d", bits(-x)), conv("int", "d", bits(x + 0.5)), conv("uint", "d", bits(-x - 0.5)),
-                     rt("int_string", n), rt("uint_string", n), rt("double_string", bits(x)), rt("double_string", bits(-x)),
-                     rt("int_double", n), rt("uint_double", n), rt("int_uint", n), rt("uint_int", n),
-                     conv("int", "s", dec_str(n)), conv("uint", "s", dec_str(n)), conv("double", "s", dec_str(n)), conv("bool", "s", dec_str(n)),
-                     conv("double", "d", bits(x)), conv("double", "d", bits(-x)), conv("string", "s", dec_str(n))]
-            if n in (0, 1):
-                steps += [conv("string", "b", n, rng.choice(["I", "C"])), conv("bool", "s", "true" if n else "false")]
+            srcs = [("i", n), ("u", n), ("d", bits(x)), ("d", bits(-x)), ("i", -n), ("s", dec_str(n))] + ([("b", n)] if n in (0, 1) else [])
+            steps = []
+            for f in rng.sample(["string", "int", "uint", "double"], 2):
+                for src, v in srcs:
+                    if (f, src) in (("double", "b"), ("int", "b"), ("uint", "b")):
+                        continue
+                    steps.append(conv(f, src, v, rng.choice(["I", "C"]) if src == "b" else None))
+            more = [rt("int_string", n), rt("uint_string", n), rt("double_string", bits(x)), rt("double_string", bits(-x)),
+                    rt("int_double", n), rt("uint_double", n), rt("int_uint", n), rt("uint_int", n), conv("bool", "s", dec_str(n)),
+                    conv("int", "d", bits(x + 0.5)), conv("uint", "d", bits(-x - 0.5)), conv("bool", "s", "true" if n else "false")]
+            steps += rng.sample(more, 3)
             finish(steps, threads=(i % 4 == 3))
-        # (d) one instant seen from several offsets (equal, same hash, different text)
+        # (d) one instant seen from several offsets (equal, same hash, different text) — two conversions applied to all of them
         offs = [0, 0, 3600 * US_S, -3600 * US_S, 19800 * US_S, -(9 * 3600 + 1800) * US_S, 14 * 3600 * US_S, -12 * 3600 * US_S, 60 * US_S, -60 * US_S]
         for i in range(8 * reps):
             utc = rng.choice([rng.randint(0, MAX_LOC) // US_S * US_S, loc_of_fields(rng.randint(1, 9999), 1, 1),
                               loc_of_fields(rng.randint(1, 9999), 12, 31, 23, 59, 59), loc_of_fields(rng.choice([999, 1000, 2000, 2024]), 2, 28, 23, 30)])
-            steps = []
-            for o in rng.sample(offs, 4):
-                l = utc + o
-                if not 0 <= l <= MAX_LOC:
-                    continue
-                steps += [rt("ts_string", [l, o]), conv("string", "t", [l, o]), conv("timestamp", "s", ts_text(l, o)), conv("int", "t", [l, o]),
-                          conv("timestamp", "t", [l, o])]
-                if o == 0:
-                    steps.append(conv("timestamp", "s", ts_text(l, o)[:-1] + "+00:00"))
+            views = [[utc + o, o] for o in rng.sample(offs, 4) if 0 <= utc + o <= MAX_LOC]
             l2 = utc + rng.choice([US_S, -US_S, 60 * US_S, 3600 * US_S, US_DAY])          # a near neighbour, UTC
             if 0 <= l2 <= MAX_LOC:
-                steps += [rt("ts_string", [l2, 0]), conv("timestamp", "s", ts_text(l2, 0))]
+                views.append([l2, 0])
+            kinds = rng.sample(["rt", "string", "int", "timestamp", "text"], 2)
+            steps = []
+            for l, o in views:
+                for k in kinds:
+                    if k == "rt":
+                        steps.append(rt("ts_string", [l, o]))
+                    elif k == "text":
+                        steps.append(conv("timestamp", "s", ts_text(l, o)))
+                        if o == 0:
+                            steps.append(conv("timestamp", "s", ts_text(l, o)[:-1] + "+00:00"))
+                    else:
+                        steps.append(conv(k, "t", [l, o]))
             finish(steps, threads=(i % 4 == 3))
         # (e) text and bytes with the same content; a damaged relative of a valid encoding
         pools = [(0x20, 0x7e), (0xa0, 0x7ff), (0x800, 0xd7ff), (0xe000, 0xffff), (0x10000, 0x10ffff)]
@@ -525,10 +535,33 @@ class C10(Prop):
             with ThreadPoolExecutor(max_workers=4) as ex:
                 outs = list(ex.map(self._impl1, steps))
         else:
-            outs = [self._impl1(st) for st in steps]
+            # "share": steps with the same expression and runner reuse ONE compiled program, evaluated with
+            # different bindings (state kept on a program / runner / environment between evaluations)
+            progs = {} if c.get("share") else None
+            outs = [self._impl1(st, progs) for st in steps]
         return "seq " + json.dumps(outs)
 
-    def _impl1(self, c):
+    @staticmethod
+    def _run_shared(progs, src, runner, bindings):
+        import celpy
+        from celpy.evaluation import CELEvalError
+        try:
+            key = (src, runner)
+            if key not in progs:
+                env = celpy.Environment(runner_class=celrun.RUNNERS[runner])
+                try:
+                    progs[key] = env.program(env.compile(src))
+                except celpy.CELParseError:
+                    return "parse-error"
+            return canon_time(progs[key].evaluate(bindings))
+        except CELEvalError:
+            return "err"
+        except RecursionError:
+            return "EXC RecursionError"
+        except Exception as ex:  # noqa
+            return f"EXC {type(ex).__name__}"
+
+    def _impl1(self, c, progs=None):
         from celpy import celtypes
         if c["kind"] == "conv":
             src, expr, fns = c["src"], c["f"] + "({x})", [c["f"]]
@@ -553,6 +586,8 @@ class C10(Prop):
                 return "raise " + type(ex).__name__
         if via in ("I", "C"):
             return run_cel(expr.format(x=lit), via)
+        if progs is not None:
+            return self._run_shared(progs, expr.format(x="x"), via[0], {"x": val})
         return run_cel(expr.format(x="x"), via[0], {"x": val})
 
     # ------------------------------------------------------------------------------------------
@@ -660,7 +695,8 @@ class C10(Prop):
             msg = self._oracle1(st, o)
             if msg:
                 before = "; ".join(self._show(x) for x in steps[:i]) or "nothing"
-                return f"step {i + 1} of {len(steps)} in one process ({c.get('mode', 'serial')}), after [{before}]: {msg}"
+                how = c.get("mode", "serial") + (", one program per expression" if c.get("share") else "")
+                return f"step {i + 1} of {len(steps)} in one process ({how}), after [{before}]: {msg}"
         return None
 
     def _show(self, st):
